@@ -96,6 +96,16 @@ Theorem C16_corner_order_irrelevant : forall rel abs (f : list nat -> list nat) 
 Proof. exact corner_order_irrelevant. Qed.
 Print Assumptions C16_corner_order_irrelevant.
 
+(* completeness over the same cell types (the converse of C16_mesh_equal_sound where no pixel/quad or voxel/hexahedron exchange
+   is involved): points pairwise within tolerance and, type by type, rows with the same corners are enough for "equal" *)
+Theorem C16_mesh_equal_complete : forall rel abs A B,
+  NoDup (cell_types A) -> Permutation (cell_types A) (cell_types B) ->
+  points_close rel abs (pts A) (pts B) = true ->
+  (forall t, In t (cell_types A) -> rows_equal (rows_of t (cells A)) (rows_of t (cells B)) = true) ->
+  mesh_equal rel abs A B = true.
+Proof. exact mesh_equal_complete. Qed.
+Print Assumptions C16_mesh_equal_complete.
+
 Example C16_block_order_nonvacuous :
   let A := {| pts := [[0#1; 0#1]; [1#1; 0#1]; [1#1; 1#1]; [0#1; 1#1]]%Q; cells := [(5, [[0; 1; 2]; [0; 2; 3]]); (3, [[0; 1]])] |} in
   let B := {| pts := pts A; cells := [(3, [[0; 1]]); (5, [[0; 1; 2]; [0; 2; 3]])] |} in
